@@ -350,6 +350,34 @@ fn derives(m: &Model, ctx: &mut Ctx) {
         }
     }
     ctx.floor("C19.derives/type-template-calls", n, 12);
+    // `Copy` is derived (join_annotations' needs_copy) exactly for the generated types whose payload is Copy in Rust: bool, (),
+    // and a field-less enum. Every other payload (Integer, BitString, OctetString, strings, Any, times, ObjectIdentifier,
+    // lists, structs with such fields) is not Copy, and `#[derive(Copy)]` on it is E0204.
+    {
+        let copy_kinds = ["generate_boolean", "generate_null", "generate_enumerated"];
+        let mut sites = 0;
+        for f in m.fns.iter().filter(|f| f.module.starts_with("generator::rasn::builder") && f.name.starts_with("generate_")) {
+            for mc in model::method_calls_in(&f.block) {
+                if mc.method != "join_annotations" || mc.args.len() != 3 {
+                    continue;
+                }
+                // only the type-level annotation lists (third argument true)
+                if tok(&mc.args[2]) != "true" {
+                    continue;
+                }
+                sites += 1;
+                let flag = tok(&mc.args[1]);
+                let want = copy_kinds.contains(&f.name.as_str());
+                ctx.oblige("C19.derives", &format!("needs-copy:{}", f.name), true);
+                if flag != want.to_string() {
+                    ctx.violate("C19.derives", &format!("needs-copy:{}", f.name), &f.file, span_line(&mc),
+                        &format!("{} passes needs_copy = {} to join_annotations: `Copy` is derived exactly for BOOLEAN, NULL and ENUMERATED types (payloads bool, (), field-less enum); {}", f.name, flag,
+                            if want { "leaving it out changes the type's traits" } else { "on any other payload `#[derive(Copy)]` does not compile (E0204)" }));
+                }
+            }
+        }
+        ctx.floor("C19.derives/needs-copy-sites", sites, 15);
+    }
     if let Some(f) = anchor_fn(m, ctx, "C19.derives", Some("Rasn"), "join_annotations", None) {
         ctx.oblige("C19.derives", "join-type-annotation", true);
         let b = tok(&f.block);
